@@ -175,6 +175,5 @@ m('benign_blockdiag_mv_loop', ['C10', 'C01', 'C03'], '_base/blocks.py', '       
   '        ops, treedef = jax.tree.flatten(self.blocks, is_leaf=lambda x: isinstance(x, AbstractLinearOperator))\n        vects = treedef.flatten_up_to(vector)\n        return jax.tree.unflatten(treedef, [op.mv(v) for op, v in zip(ops, vects)])', note=B)
 m('benign_pixel2index_rint', ['C17'], 'landscapes.py', '            indices_axis = jnp.round(coord).astype(dtype)\n            valid &= (0 <= indices_axis) & (indices_axis < dim)',
   '            indices_axis = jnp.rint(coord).astype(dtype)\n            valid = jnp.logical_and(valid, jnp.logical_and(indices_axis >= 0, indices_axis <= dim - 1))', note=B)
-m('benign_pack_via_where', ['C12', 'C01'], '_base/linear.py', '        return x[self.mask]', '        idx = jax.numpy.nonzero(self.mask)\n        return x[idx] if not isinstance(x, jax.Array) else x[idx]', note=B)
 m('benign_composition_mv_loop', ['C01', 'C02', 'C03'], '_base/core.py', '        for operand in reversed(self.operands):\n            x = operand.mv(x)\n        return x',
   '        y = x\n        for i in range(len(self.operands) - 1, -1, -1):\n            y = self.operands[i].mv(y)\n        return y', note=B)
